@@ -44,4 +44,28 @@ theorem gen_reverseBytes64_ok (nBits : Nat) (n : BitVec 64) :
 theorem gen_twosComplement_ok (nBits : Nat) (n : BitVec 64) :
     FqModel.Gen.BitFns.twosComplement nBits n = FqModel.Scalar.twosComplement nBits n := rfl
 
+/-- REGENERATED FACT.  The model's `expandF16ToF32` (and its normalisation loop) IS
+    mathx.expandF16ToF32 as translated statement by statement from float16.go -/
+theorem gen_f16NormLoop_ok : ∀ (fuel frac exp : Nat),
+    FqModel.Gen.BitFns.expandF16ToF32_loop0 fuel frac exp = FqModel.Scalar.f16NormLoop fuel frac exp := by
+  intro fuel
+  induction fuel with
+  | zero => intro frac exp; rfl
+  | succ n ih =>
+    intro frac exp
+    simp only [FqModel.Gen.BitFns.expandF16ToF32_loop0, FqModel.Scalar.f16NormLoop, ih,
+      FqModel.Gen.BitFns.u32, FqModel.Scalar.u32]
+
+theorem gen_expandF16ToF32_ok (h : Nat) :
+    FqModel.Gen.BitFns.expandF16ToF32 h = FqModel.Scalar.expandF16ToF32 h := by
+  simp only [FqModel.Gen.BitFns.expandF16ToF32, FqModel.Scalar.expandF16ToF32, gen_f16NormLoop_ok,
+    FqModel.Gen.BitFns.u32, FqModel.Scalar.u32]
+  rfl
+
+/-- REGENERATED FACT.  The model's `f80to64` IS mathx.Float80.Float64 as translated from float80.go
+    (field extraction, the NaN / ±Inf branches, exponent 0 treated as 1, bias 16383 + 63, big.Float of
+    precision 64 rounded once, sign applied last) -/
+theorem gen_f80to64_ok (se m : Nat) :
+    FqModel.Gen.BitFns.f80to64 se m = FqModel.Scalar.f80to64 se m := rfl
+
 end Props.C02
